@@ -207,6 +207,10 @@ pub fn app_layer(net: &Net, idx: u64, st: &mut Stats) {
         ("query_weights", json!({"weights": {"distance": 0.0, "time": 1.0}}), (0.0, 1.0, Rate::Raw, Rate::Raw)),
         ("query_weights_and_rates", json!({"weights": {"distance": 1.0, "time": 1.0}, "vehicle_rates": {"distance": {"type": "factor", "factor": 0.01}, "time": {"type": "factor", "factor": 3.0}}}), (1.0, 1.0, Rate::Factor(0.01), Rate::Factor(3.0))),
         ("query_rates_only", json!({"vehicle_rates": {"distance": {"type": "factor", "factor": 2.0}, "time": {"type": "raw"}}}), (1.0, 0.0, Rate::Factor(2.0), Rate::Raw)),
+        // weights that also name a feature this state model does not have (a query written for an energy-aware application):
+        // the name is ignored, the other weights of the query stay in force
+        ("query_weights_with_unknown_name", json!({"weights": {"distance": 0.0, "time": 1.0, "energy_electric": 0.0}}), (0.0, 1.0, Rate::Raw, Rate::Raw)),
+        ("query_weights_with_unknown_name_first", json!({"weights": {"energy_liquid": 2.0, "distance": 0.25, "time": 3.0}}), (0.25, 3.0, Rate::Raw, Rate::Raw)),
     ];
     for (name, extra, (wd, wt, rd, rt)) in variants {
         st.evaluations += 1;
